@@ -51,6 +51,7 @@ def gen(rng, tier, idx):
             g.plan.op(t, "require", mname, OTHER_MODELS[mname][0])
     n = r.choice([3, 10, 40, 120])
     marks = {}
+    depth = [0] * nth
     for t in range(nth):
         if r.chance(60):
             for ty in r.sample(range(100), r.randint(1, 2)):
@@ -89,7 +90,12 @@ def gen(rng, tier, idx):
             if a == "chdir":
                 # the application moves to another working directory in the middle of the run; where the trace goes was
                 # settled when the process was initialised
-                g.plan.op(t, "chdir", r.choice(["work", "..", "elsewhere", "."]))
+                # (never above the run's own root directory)
+                tgt = r.choice(["work", "..", "elsewhere", "."])
+                if tgt == ".." and depth[t] == 0:
+                    tgt = "work"
+                depth[t] += {"work": 1, "elsewhere": 1, "..": -1, ".": 0}[tgt]
+                g.plan.op(t, "chdir", tgt)
                 continue
             if a == "model":
                 _, ev_in, ev_out = OTHER_MODELS[r.choice(uses[t])]
